@@ -241,6 +241,10 @@ struct HalfSpec {
     travels: String, // tx | rx | both (bin, lr: finding FB2)
     pos: String,     // vec opt tup0 tup2 one pair nested map
     prequeue: bool,  // mpsc rx travelling with an item already queued
+    /// bin / lr: before the value with this half is sent, a send of a value containing the OTHER half of the same
+    /// channel fails after serialization ("ports": sender endpoint out of ports, "oversize": max_item_size) and hands
+    /// the half back — the interlock must have returned to "local", so that this send is the ordinary local-remote case
+    prefail: String,
 }
 
 #[derive(Clone, Debug)]
@@ -270,7 +274,10 @@ impl Case {
             self.name, self.hops, self.scenario, self.chunk, self.buf, self.maxdata, self.slack, self.via
         )];
         for h in &self.halves {
-            v.push(format!("half {} kind={} travels={} pos={} prequeue={}", h.label, h.kind, h.travels, h.pos, h.prequeue as u8));
+            v.push(format!(
+                "half {} kind={} travels={} pos={} prequeue={} prefail={}",
+                h.label, h.kind, h.travels, h.pos, h.prequeue as u8, h.prefail
+            ));
         }
         v.push("end".into());
         v
@@ -309,6 +316,7 @@ impl Case {
                         travels: m["travels"].clone(),
                         pos: m["pos"].clone(),
                         prequeue: m.get("prequeue").map(|s| s == "1").unwrap_or(false),
+                        prefail: m.get("prefail").cloned().unwrap_or_else(|| "-".into()),
                     });
                 }
             } else if l == "end" {
@@ -355,8 +363,39 @@ fn place(v: &mut Value, pos: &str, l: L) {
     }
 }
 
-/// creates the channel of one half spec: the travelling halves and the ends kept at the origin
-fn make(spec: &HalfSpec) -> (Vec<L>, Vec<(Lab, End)>) {
+/// label offset of a half that goes through a failing preliminary send first
+const PRE: Lab = 700_000;
+
+/// creates the channel of one half spec: the travelling halves, the ends kept at the origin, and the halves that
+/// stay at the origin but are first put into a preliminary value whose send fails (`prefail`)
+fn make(spec: &HalfSpec) -> (Vec<L>, Vec<(Lab, End)>, Vec<L>) {
+    let label = spec.label;
+    let pre = spec.prefail != "-";
+    if pre && (spec.kind == "bin" || spec.kind == "lr") && (spec.travels == "tx" || spec.travels == "rx") {
+        return match (spec.kind.as_str(), spec.travels.as_str()) {
+            ("bin", "tx") => {
+                let (t, r) = rch::bin::channel();
+                (vec![L { label, h: H::BinTx(t) }], vec![], vec![L { label: label + PRE, h: H::BinRx(r) }])
+            }
+            ("bin", _) => {
+                let (t, r) = rch::bin::channel();
+                (vec![L { label, h: H::BinRx(r) }], vec![], vec![L { label: label + PRE, h: H::BinTx(t) }])
+            }
+            (_, "tx") => {
+                let (t, r) = rch::lr::channel::<Lab, codec::Default>();
+                (vec![L { label, h: H::LTx(t) }], vec![], vec![L { label: label + PRE, h: H::LRx(r) }])
+            }
+            _ => {
+                let (t, r) = rch::lr::channel::<Lab, codec::Default>();
+                (vec![L { label, h: H::LRx(r) }], vec![], vec![L { label: label + PRE, h: H::LTx(t) }])
+            }
+        };
+    }
+    let (a, b) = make_plain(spec);
+    (a, b, vec![])
+}
+
+fn make_plain(spec: &HalfSpec) -> (Vec<L>, Vec<(Lab, End)>) {
     let label = spec.label;
     let tx = spec.travels == "tx";
     match spec.kind.as_str() {
@@ -507,12 +546,16 @@ async fn run_case_async(case: Case) {
         case.via
     ));
     for h in &case.halves {
-        tr(format!("half {} kind={} travels={} pos={} prequeue={}", h.label, h.kind, h.travels, h.pos, h.prequeue as u8));
+        tr(format!(
+            "half {} kind={} travels={} pos={} prequeue={} prefail={}",
+            h.label, h.kind, h.travels, h.pos, h.prequeue as u8, h.prefail
+        ));
     }
     // connections
     let mut senders: Vec<rch::base::Sender<Value>> = Vec::new();
     let mut receivers: Vec<rch::base::Receiver<Value>> = Vec::new();
     let mut conns = Vec::new();
+    let mut origin_ports = 0u32;
     for i in 0..hops {
         // endpoint i (sending side of connection i), endpoint i+1 (receiving side)
         // an endpoint needs one port per attached connection for its base channel (the unused reverse
@@ -523,6 +566,9 @@ async fn run_case_async(case: Case) {
         let extra = if case.via == "bin" { 2 + 2 * n_ports } else { 0 };
         let mut pa = need_a + 1 + case.slack + extra;
         let mut pb = need_b + 1 + case.slack + extra;
+        if i == 0 {
+            origin_ports = pa;
+        }
         if case.scenario == "txports" && i == 0 {
             pa = (1 + n_ports).saturating_sub(1).max(2);
         }
@@ -545,12 +591,70 @@ async fn run_case_async(case: Case) {
     // the value
     let mut value = Value::empty(1);
     let mut kept: Vec<(Lab, End)> = Vec::new();
+    let mut pre_halves: Vec<(String, L)> = Vec::new();
     for hs in &case.halves {
-        let (ls, ks) = make(hs);
+        let (ls, ks, pre) = make(hs);
         for l in ls {
             place(&mut value, &hs.pos, l);
         }
         kept.extend(ks);
+        pre_halves.extend(pre.into_iter().map(|l| (hs.prefail.clone(), l)));
+    }
+    // preliminary sends that fail after serialization and hand their halves back (buffered serialization: the
+    // failure is found before anything is put on the port, the receiving endpoint is not involved)
+    for mode in ["ports", "oversize"] {
+        let mine: Vec<L> = {
+            let mut v = Vec::new();
+            let mut rest = Vec::new();
+            for (m, l) in pre_halves.drain(..) {
+                if m == mode { v.push(l) } else { rest.push((m, l)) }
+            }
+            pre_halves = rest;
+            v
+        };
+        if mine.is_empty() {
+            continue;
+        }
+        let n_pre = mine.len();
+        let mut pv = Value::empty(9);
+        pv.vec.extend(mine);
+        let mut filler_rx = Vec::new();
+        if mode == "ports" {
+            // more halves than the endpoint has ports: the allocation fails after the halves above were serialized
+            for k in 0..origin_ports + 1 {
+                let (t, r) = rch::mpsc::channel::<Lab, codec::Default>(1);
+                pv.vec.push(L { label: 800_000 + k, h: H::MTx(t) });
+                filler_rx.push(r);
+            }
+        } else {
+            senders[0].set_max_item_size(1);
+        }
+        let res = no_hang(senders[0].send(pv)).await;
+        senders[0].set_max_item_size(rch::DEFAULT_MAX_ITEM_SIZE);
+        let mut recovered = 0;
+        let kind = match res {
+            None => "hang",
+            Some(Ok(())) => "ok",
+            Some(Err(e)) => {
+                let k = match &e.kind {
+                    rch::base::SendErrorKind::Serialize(_) => "ser",
+                    rch::base::SendErrorKind::Send(_) => "send",
+                    rch::base::SendErrorKind::MaxItemSizeExceeded => "oversize",
+                };
+                let mut back = Vec::new();
+                e.item.flatten(&mut back);
+                for l in back {
+                    if l.label >= PRE && l.label < 800_000 {
+                        recovered += 1;
+                        kept.push((l.label - PRE, end_of(l.h)));
+                    }
+                }
+                k
+            }
+        };
+        tr(format!("presend mode={mode} halves={n_pre} res={kind} recovered={recovered}"));
+        drop(filler_rx);
+        settle().await;
     }
     // hop 0: send
     let mut travelling: Option<Value> = Some(value);
@@ -963,9 +1067,18 @@ fn gen_case(r: &mut Rng, i: u64, stats: &mut HashMap<String, u64>) -> Case {
         }
         let pos = *r.pick(&["vec", "vec", "opt", "tup0", "tup2", "one", "pair", "nested", "map", "map"]);
         let prequeue = kind == "mpsc" && travels == "rx" && r.chance(1, 3);
+        // retry with the other half after a failed send (buffered serialization only, see `prefail`)
+        let prefail = if (kind == "bin" || kind == "lr") && travels != "both" && scenario == "normal" && maxdata == 4096 && r.chance(1, 3) {
+            *r.pick(&["ports", "oversize"])
+        } else {
+            "-"
+        };
+        if prefail != "-" {
+            stat(stats, &format!("prefail_{kind}_{prefail}"));
+        }
         stat(stats, &format!("half_{kind}_{travels}"));
         stat(stats, &format!("pos_{pos}"));
-        halves.push(HalfSpec { label: 1 + k as Lab, kind: kind.into(), travels: travels.into(), pos: pos.into(), prequeue });
+        halves.push(HalfSpec { label: 1 + k as Lab, kind: kind.into(), travels: travels.into(), pos: pos.into(), prequeue, prefail: prefail.into() });
     }
     let scenario = if n < 2 && scenario != "normal" { "normal" } else { scenario };
     stat(stats, &format!("scenario_{scenario}"));
@@ -1003,6 +1116,27 @@ half 4 kind=watch travels=rx pos=map
 half 5 kind=bin travels=tx pos=pair
 half 6 kind=bcast travels=rx pos=pair
 half 7 kind=mpsc travels=tx pos=nested
+end
+# retry with the other half: a first send containing the half that stays fails after serialization (sender endpoint out
+# of ports / max_item_size) and hands it back; the send of the other half must then be the ordinary local-remote case
+case fixed-retry-1hop hops=1 scenario=normal chunk=10 buf=16 maxdata=4096 slack=1
+half 1 kind=bin travels=rx pos=vec prefail=ports
+half 2 kind=bin travels=tx pos=map prefail=oversize
+half 3 kind=lr travels=rx pos=opt prefail=oversize
+half 4 kind=lr travels=tx pos=vec prefail=ports
+half 5 kind=mpsc travels=tx pos=vec
+half 6 kind=bin travels=rx pos=pair
+end
+case fixed-retry-3hops hops=3 scenario=normal chunk=10 buf=8 maxdata=4096 slack=0
+half 1 kind=bin travels=tx pos=nested prefail=ports
+half 2 kind=oneshot travels=rx pos=opt
+half 3 kind=bin travels=rx pos=map prefail=oversize
+half 4 kind=watch travels=tx pos=tup0
+end
+case fixed-retry-via-bin hops=2 scenario=normal chunk=10 buf=16 maxdata=4096 slack=1 via=bin
+half 1 kind=bin travels=rx pos=vec prefail=oversize
+half 2 kind=mpsc travels=rx pos=vec prequeue=1
+half 3 kind=bin travels=tx pos=vec prefail=ports
 end
 # lr halves (one connection only), streamed value
 case fixed-lr hops=1 scenario=normal chunk=10 buf=16 maxdata=64 slack=0
